@@ -732,3 +732,71 @@ def check_topo(ctx):
                               'the dependency that the same pass resets'
                        if sorted_graph != graph_arg else None)
     ctx.floor('TOPO-call', found, 1, f'call of {func.name}')
+
+
+GRAPH_SHRINKERS = {'remove_node', 'remove_edge', 'remove_dependency',
+                   'remove', 'pop', 'discard', 'clear', '__delitem__',
+                   'transitive_reduction'}
+
+
+def check_graph_whole(ctx):
+    """The backend decides with the dependencies of the graphs it is GIVEN:
+    the scheduler must hand it the job's own full and hard graphs.  A graph
+    from which nodes or edges were removed first (pruning of "up to date"
+    tasks, reduction) hides dependencies from the decision: a DONE task
+    whose pruned dependency is newer is compared with nothing and kept."""
+    program = ctx.program
+    n = 0
+    for func in program.all_functions():
+        if not func.module.name.startswith('valjean.cosette.scheduler'):
+            continue
+        defs = {}
+        for node in ast.walk(func.node):
+            if isinstance(node, ast.Assign):
+                for tgt in node.targets:
+                    if isinstance(tgt, ast.Name):
+                        defs.setdefault(tgt.id, []).append(node.value)
+                    elif isinstance(tgt, ast.Tuple) and isinstance(
+                            node.value, ast.Tuple) and len(
+                                tgt.elts) == len(node.value.elts):
+                        for elt, val in zip(tgt.elts, node.value.elts):
+                            if isinstance(elt, ast.Name):
+                                defs.setdefault(elt.id, []).append(val)
+        for call in calls_in(func.node):
+            if call_name(call) != 'execute_tasks':
+                continue
+            for kwd in call.keywords:
+                if kwd.arg not in ('full_graph', 'hard_graph'):
+                    continue
+                n += 1
+                val = kwd.value
+                construct = f'{kwd.arg}={txt(val)[:40]} handed to the ' \
+                            f'backend'
+                if isinstance(val, ast.Attribute) and dotted(
+                        val) == f'self.{kwd.arg}':
+                    ctx.holds('GRAPH-WHOLE', func, construct,
+                              at=func.where(call))
+                    continue
+                if isinstance(val, ast.Name):
+                    srcs = defs.get(val.id, [])
+                    own = [v for v in srcs if f'self.{kwd.arg}' in txt(v)]
+                    shrunk = [c for c in calls_in(func.node)
+                              if call_name(c) in GRAPH_SHRINKERS and
+                              dotted(receiver(c)) == val.id]
+                    if shrunk:
+                        ctx.violated(
+                            'GRAPH-WHOLE', func, construct,
+                            at=func.where(shrunk[0]),
+                            detail=f'`{txt(shrunk[0])[:50]}` removes nodes / '
+                                   f'edges from the graph before the '
+                                   f'backend sees it: the dependencies of '
+                                   f'the remaining tasks on what was removed '
+                                   f'are no longer examined (status, clocks)')
+                        continue
+                    if srcs and len(own) == len(srcs):
+                        ctx.holds('GRAPH-WHOLE', func, construct,
+                                  at=func.where(call))
+                        continue
+                ctx.undecided('GRAPH-WHOLE', func, construct,
+                              at=func.where(call))
+    ctx.floor('GRAPH-WHOLE', n, 2, 'graphs handed to execute_tasks')
